@@ -9,6 +9,12 @@ SRC_TIE = {
            "regenerated from Utest.cpp on every run (tools/cxx2gal.py; countCheck and failWith as ghost events) and proved to count exactly once and to "
            "record exactly one failure of the named class at the file and line passed in iff the model's predicate is false. The macro layer "
            "(integer promotions, operand evaluation) stays model + correspondence.",
+    "C07": " SOURCE TIE BY PROOF: MemoryLeakWarningPlugin::preTestAction / postTestAction / FinalReport / expectLeaksInTest / ignoreAllLeaksInTest and "
+           "MemoryLeakDetector::startChecking / stopChecking / enable / disable / totalMemoryLeaks / markCheckingPeriodLeaksAsNonCheckingPeriod are regenerated "
+           "from the source on every run (tools/cxx2heap.py; result.getFailureCount() as a ghost stream, report() / the TestFailure handed to addFailure "
+           "as ghost events, the table functions being the translated ones of C04 at the table's offset inside the detector object) and proved to compute "
+           "the model's pre_action / post_action / final_report on the heap representation: the failure event is emitted iff the model's verdict fires, "
+           "every checking-period record is re-stamped (d_mark), flags reset, nothing else stored. Utest::run's phase control flow stays model + correspondence.",
     "C11": " SOURCE TIE BY PROOF: GccPlatformSpecificRunTestInASeperateProcess (fork failure, the child's verdict, the parent's wait loop with its retry "
            "bound and SIGCONT) and SetTestFailureByStatusCode are regenerated from UtestPlatform.cpp on every run (tools/cxx2gal.py; fork / "
            "waitpid / getFailureCount as ghost oracle streams) and proved to do what the model's parent_loop / set_failure_by_status say on every "
